@@ -103,6 +103,9 @@ impl AsyncRead for MockIo {
 impl AsyncWrite for MockIo {
     fn poll_write(self: Pin<&mut Self>, _: &mut Context<'_>, b: &[u8]) -> Poll<io::Result<usize>> {
         let mut s = self.0.lock().unwrap();
+        if s.shutdown_seen {
+            return Poll::Ready(Err(io::Error::new(io::ErrorKind::BrokenPipe, "write after shutdown")));
+        }
         if let Some(at) = s.write_fail_at {
             if s.written >= at {
                 let k = s.write_fail_kind.unwrap_or(io::ErrorKind::BrokenPipe);
